@@ -76,6 +76,11 @@ enum Op {
     /// drop the object and open the same directory again
     Reopen,
     Compact,
+    /// a write while the process may not let any file grow beyond the current size of the largest
+    /// data file plus `slack` bytes (RLIMIT_FSIZE; SIGXFSZ ignored): the disk is as good as full,
+    /// the write fails after part of its bytes reached the file. Only in a section that runs on one
+    /// thread: the limit is the process's
+    WriteAtFileSizeLimit { len: u32, seed: u64, slack: u16 },
     /// store `n` distinct 8-byte objects whose encoding keys all fall into index bucket `bucket`
     /// (contents are re-drawn from `seed` until the key does): fills one bucket's update log
     FillBucket { bucket: u8, n: u16, seed: u64 },
@@ -608,6 +613,32 @@ fn run_case(c: &Case, known: &Known) -> Verdict {
                     }
                     w.do_write(data, inner, *class, *mode, (*seed >> 7) as u8, (*seed >> 15) & 1 == 1).await?;
                 }
+                Op::WriteAtFileSizeLimit { len, seed, slack } => {
+                    let (data, inner) = payload::build(Class::Random, *len, *seed);
+                    let dd = Sut::data_dir(c.sys, dir.path());
+                    let largest = std::fs::read_dir(&dd)
+                        .map(|rd| rd.flatten().filter(|e| e.file_name().to_string_lossy().starts_with("data.")).filter_map(|e| e.metadata().ok()).map(|m| m.len()).max().unwrap_or(0))
+                        .unwrap_or(0);
+                    let mut old = libc::rlimit { rlim_cur: 0, rlim_max: 0 };
+                    // SAFETY: plain POSIX calls on this process's own limits and signal dispositions
+                    let limited = unsafe {
+                        libc::signal(libc::SIGXFSZ, libc::SIG_IGN);
+                        libc::getrlimit(libc::RLIMIT_FSIZE, &mut old) == 0
+                            && libc::setrlimit(libc::RLIMIT_FSIZE, &libc::rlimit { rlim_cur: largest + u64::from(*slack), rlim_max: old.rlim_max }) == 0
+                    };
+                    let before = w.fl.writes;
+                    let r = w.do_write(Arc::new(data), inner.map(Arc::new), Class::Random, 0, 0, false).await;
+                    if limited {
+                        // SAFETY: as above
+                        unsafe {
+                            libc::setrlimit(libc::RLIMIT_FSIZE, &old);
+                        }
+                    }
+                    r?;
+                    if limited && w.fl.writes == before {
+                        w.fl.class("write-failed-at-the-file-size-limit");
+                    }
+                }
                 Op::Rewrite(ix) => {
                     if !w.objs.is_empty() {
                         let i = pick_idx(*ix, w.objs.len());
@@ -979,6 +1010,33 @@ fn main() {
             move |c: &Case| run_case(c, &k),
         )
         .shards(16),
+    );
+    // a write that fails half-way (file size limit), then ordinary writes behind it
+    let k = known.clone();
+    ck.run(
+        Section::enumerate(
+            "write-after-a-failed-write",
+            "3 systems x {one, two} objects, then a write of 7000 / 300 bytes that fails because no file may grow by more than 0 / 20 / 100 / 3000 bytes (RLIMIT_FSIZE), then two more objects, a read of everything, a reopen and a read of everything (one thread: the limit is the process's)".to_string(),
+            move || {
+                let mut v = Vec::new();
+                for sys in [Sys::Container, Sys::Installation, Sys::Archive] {
+                    for first in [1usize, 2] {
+                        for (len, slack) in [(7000u32, 0u16), (7000, 20), (7000, 100), (7000, 3000), (300, 20), (300, 100)] {
+                            let mut ops: Vec<Op> = (0..first).map(|i| Op::Write { class: Class::Random, len: 5000 + i as u32 * 11, seed: seed ^ (i as u64 + 1), mode: 0 }).collect();
+                            ops.push(Op::WriteAtFileSizeLimit { len, seed: seed ^ 0xF5, slack });
+                            ops.push(Op::Write { class: Class::Random, len: 5000, seed: seed ^ 0xA1, mode: 0 });
+                            ops.push(Op::Write { class: Class::Random, len: 40, seed: seed ^ 0xA2, mode: 0 });
+                            ops.push(Op::Reopen);
+                            ops.push(Op::Write { class: Class::Random, len: 900, seed: seed ^ 0xA3, mode: 0 });
+                            v.push(Case { sys, sweep_every_step: true, ops });
+                        }
+                    }
+                }
+                Box::new(v.into_iter())
+            },
+            move |c: &Case| run_case(c, &k),
+        )
+        .shards(1),
     );
     // entry sizes (30-byte header + 9-byte frame + content) with telling byte patterns in the size field
     let k = known.clone();
